@@ -19,7 +19,8 @@ reg(Prop(
          'hash with the canonical bitfield of the expected set; a result that failed is not fed into further judged '
          'operations (attribution to the first diverging operation). evaluations = judged results; a case for the distinct '
          'count is one subset, one row (left operand, right operand set), one tree (its expression text) or one history '
-         '(its step sequence), hashed canonically.',
+         '(its step sequence), hashed canonically.'
+         ' A 300-enumerator enum in 8-, 32- and 64-bit words against std::bitset (set/get, init, ~, |, &, ^, ==, hash, is_subset_eq; members k and k+256).',
     assumptions=COMMON_ASSUMPTIONS + [
         'enumerators are the values 0..size-1 of an enum that follows the fcppt.enum convention (fcppt_maximum)',
         'std::hash specialisation, underlying_value, the array constructor/accessor, proxy-to-proxy assignment and hash '
